@@ -8,14 +8,15 @@ from harness.runner import BCheck
 from scenario import bam as BAM
 
 LEVEL = "exploration"
-LEVEL_TEXT = ("Bounded stand-in: the real run_haplotag on generated BAMs (paired, supplementary, secondary, duplicate, placed and unplaced unmapped records, two read "
+LEVEL_TEXT = ("Deductive part (vcgen/z3, all inputs): ignore_read skips exactly the unmapped and secondary alignments, and supplementary ones iff --tag-supplementary is off (contracts/haplotag_py.py). "
+              "Bounded stand-in: the real run_haplotag on generated BAMs (paired, supplementary, secondary, duplicate, placed and unplaced unmapped records, two read "
               "groups, a contig holding only unmapped-placed records, ploidy 2-4) and phased VCFs with several phase sets whose haplotype order is random: (a) the "
               "output BAM is the input, record for record and in order, except for HP/PS/PC; (b) every tag equals an independent scorer written from the statement "
               "(sum of allele qualities per haplotype within a phase set, unique maximum, PC = best - second, ties/untouched reads untagged); (c) exchanging the "
               "haplotypes of one phase set exchanges HP for exactly the reads of that set. The deductive frame contract of the main loop is not discharged yet.")
 LEVEL_NOTE = "Seeded sampling. Trusted: scenario generator, pysam for reading both BAMs back."
 TECHNIQUE = "bounded runtime contract on run_haplotag (BAM differ + independent scorer + swap symmetry) over generated BAM/VCF scenarios"
-D_MODULES = []
+D_MODULES = ["contracts.haplotag_py"]
 EXPLANATION = LEVEL_TEXT
 TRUSTED_BASE = ["scenario/bam.py", "pysam BAM reading"]
 ASSUMPTIONS = ["allele qualities are constant (base quality 30) in the scored scenarios (SNVs, --no-reference), so that the scorer needs no re-alignment model"]
